@@ -15,8 +15,41 @@ fn is_prim(t: &Ty) -> bool {
 }
 
 /// an expression whose type is certainly not `t` (t primitive or tuple)
-fn wrong_value(t: &Ty, rng: &mut Rng) -> Option<(Expr, String)> {
+fn wrong_value(t: &Ty, rng: &mut Rng, prog: &Program) -> Option<(Expr, String)> {
     match t {
+        // a trait object of ANOTHER trait (a block whose annotated let makes the value a `dyn Other` first), or a
+        // value of a type that has no impl of the trait
+        Ty::Dyn(tr) => {
+            let mut others: Vec<(String, Expr)> = Vec::new();
+            let mut implemented_for_unit = false;
+            for it in &prog.items {
+                if let Item::Impl(im) = it {
+                    let Some(tn) = &im.trait_name else { continue };
+                    if tn == tr {
+                        if im.for_ty == Ty::Unit {
+                            implemented_for_unit = true;
+                        }
+                        continue;
+                    }
+                    let lit = match &im.for_ty {
+                        Ty::Int(IntTy::I32) => Expr::Int(IntTy::I32, 1, false),
+                        Ty::Bool => Expr::Bool(true),
+                        Ty::Str => Expr::Str("s".into()),
+                        _ => continue,
+                    };
+                    others.push((tn.clone(), lit));
+                }
+            }
+            if !others.is_empty() && (implemented_for_unit || rng.chance(2, 3)) {
+                let (other, lit) = rng.pick_ref(&others).clone();
+                let blk = Expr::Block(vec![Stmt::Let(Pat::Var("wrongdyn".into()), Some(Ty::Dyn(other.clone())), Expr::ToDyn(other.clone(), Box::new(lit)))], Some(Box::new(Expr::Var("wrongdyn".into()))));
+                Some((blk, format!("a dyn {} value where dyn {} is expected", other, tr)))
+            } else if !implemented_for_unit {
+                Some((Expr::Unit, format!("unit (no impl of {}) where dyn {} is expected", tr, tr)))
+            } else {
+                None
+            }
+        }
         Ty::Bool => Some((Expr::Str("notbool".into()), "string where bool is expected".into())),
         Ty::Str => Some((Expr::Bool(true), "bool where string is expected".into())),
         Ty::Int(_) => {
@@ -68,7 +101,7 @@ impl<'a> Walker<'a> {
         }
         // only sites we can certainly break
         let mut probe = Rng::new(0);
-        if wrong_value(expected, &mut probe).is_none() {
+        if wrong_value(expected, &mut probe, self.prog).is_none() {
             return None;
         }
         let idx = self.seen;
@@ -76,7 +109,7 @@ impl<'a> Walker<'a> {
         if self.count_only || idx != self.target || self.done.is_some() {
             return None;
         }
-        let (e, d) = wrong_value(expected, self.rng)?;
+        let (e, d) = wrong_value(expected, self.rng, self.prog)?;
         self.done = Some(Injection { kind, description: format!("{}: {}", what, d) });
         Some(e)
     }
